@@ -82,6 +82,9 @@ func structFields(p *Prog, name string) []string {
 func runC24(c *Ctx) {
 	p := c.P
 	const P = "C24"
+	runTransferPositive(c, P)
+	runVerbatimConfig(c, P)
+	runTimeoutsComplete(c, P)
 	c.rule(P, "defaults-table", "New normalises the numeric/duration option fields and the nil pointer fields (table extracted, floor 20 rows)", 20)
 	c.rule(P, "defaults-agree", "every runtime store of a TuningOptions snapshot is preceded by a normalisation of each defaulted tuning field", 12)
 	c.rule(P, "atomic", "UpdateExportOptions: no freshly made error is returned after a state mutation", 1)
